@@ -67,7 +67,8 @@ def main():
             import shutil
             shutil.copy(os.path.join(d, "patch.diff"), link)
             patches.append(link)
-            EXPECT["seeded-" + key] = (SEEDED.get(key, [key.split("-")[0]]), ["C14" if not key.startswith("C14") else "C09"])
+            # control: a library-level check the change cannot reach
+            EXPECT["seeded-" + key] = (SEEDED.get(key, [key.split("-")[0]]), ["C08" if key.startswith(("C09", "C12")) else "C09"])
     res_path = os.path.join(VERIF, "seeded" if "--seeded" in sys.argv else "mutants", "RESULTS.json")
     results = json.load(open(res_path)) if os.path.exists(res_path) else {}
     for patch in patches:
